@@ -52,7 +52,7 @@ def apply_edit(text: str, v: dict) -> str | None:
     return text.replace(old, v["new"])
 
 
-def run_variant(pid: str, v: dict, base: Path) -> dict:
+def run_variant(pid: str, v: dict, base: Path, timeout: int = 900) -> dict:
     tmp = Path(tempfile.mkdtemp(prefix=f"verif-{pid}-", dir=os.environ.get("VERIF_SCRATCH", "/tmp")))
     try:
         repo = tmp / "repo"
@@ -73,7 +73,7 @@ def run_variant(pid: str, v: dict, base: Path) -> dict:
                     return {"name": v["name"], "status": "inapplicable", "why": f"variant does not compile: {ex}"}
         env = dict(os.environ)
         env.update(VERIF_REPO=str(repo), VERIF_OUT=str(tmp / "out"), VERIF_EVIDENCE_DIR=str(tmp / "ev"), VERIF_NO_SELFTEST="1")
-        p = subprocess.run([sys.executable, str(core.VERIF / "check.py"), pid, "--tier", "quick"], capture_output=True, text=True, env=env, timeout=600)
+        p = subprocess.run([sys.executable, str(core.VERIF / "check.py"), pid, "--tier", "quick"], capture_output=True, text=True, env=env, timeout=timeout)
         out = p.stdout + p.stderr
         fired = []
         for m in re.finditer(r"^\s+\[(R[\w.]+)\] (.*)$", out, re.M):
@@ -100,6 +100,10 @@ def run(pid: str, mod) -> int:
         return 0
     with ThreadPoolExecutor(max_workers=min(16, len(variants))) as ex:
         results = list(ex.map(lambda v: run_variant(pid, v, core.REPO), variants))
+    # a variant that ran out of wall-clock time on a loaded machine says nothing about the rule: once more, alone
+    for i, (v, r) in enumerate(zip(variants, results)):
+        if r["status"] == "MISS" and r["why"] == "timeout":
+            results[i] = run_variant(pid, v, core.REPO, timeout=3000)
     miss = [r for r in results if r["status"] == "MISS"]
     inapp = [r for r in results if r["status"] == "inapplicable"]
     ok = [r for r in results if r["status"] == "ok"]
